@@ -243,14 +243,14 @@ def merge_row_list_float(j: int, r1: bool, r2: bool, d1: bool, d2: bool) -> bool
     return _row(15, j, r1, r2, d1, d2)
 
 
-DEFAULT_KINDS = ((2, 3), (3, 2), (1, 5), (5, 1), (1, 8), (8, 1), (2, 10), (2, 2), (1, 1))
+DEFAULT_KINDS = ((2, 3), (3, 2), (1, 5), (5, 1), (1, 8), (8, 1), (2, 10), (2, 2), (1, 1), (8, 9), (9, 8), (11, 12), (12, 11), (8, 8), (13, 13))
 
 
 def merge_default_reconverted(p: int, d1: bool, d2: bool) -> bool:
     """
     The later member's default wins and is re-converted against the merged (narrowest) type; a default the merged type
     cannot hold is an error, never a silently wrong literal.
-    pre: 0 <= p < 9
+    pre: 0 <= p < 15
     post: _
     """
     i, j = DEFAULT_KINDS[0]
